@@ -1153,40 +1153,50 @@ def defaultdict_typing(program):
     defaultdict-typed expressions, and attribute names holding an instance
     of a class whose __getitem__ delegates to a defaultdict field.'''
     dd_fields = set()
-    # classes whose __getitem__ reads a defaultdict field
-    changed = True
     dd_params = {}
     index_classes = set()
+    # one walk per function: the assignments and the calls
+    facts = []
+    for func in program.all_functions():
+        assigns, calls, rets = [], [], []
+        for sub in ast.walk(func.node):
+            if isinstance(sub, ast.Assign) and len(sub.targets) == 1:
+                assigns.append(sub)
+            elif isinstance(sub, ast.Call):
+                calls.append(sub)
+            elif isinstance(sub, ast.Return) and sub.value is not None:
+                rets.append(sub)
+        facts.append((func, assigns, calls, rets))
+    resolved = {}
+    changed = True
     rounds = 0
     while changed and rounds < 6:
         changed = False
         rounds += 1
-        for func in program.all_functions():
-            node = func.node
+        for func, assigns, calls, _rets in facts:
             locals_dd = set(dd_params.get(func.key, ()))
-            for sub in ast.walk(node):
-                if isinstance(sub, ast.Assign) and len(sub.targets) == 1:
-                    tgt, val = sub.targets[0], sub.value
-                    is_dd = (isinstance(val, ast.Call) and
-                             call_name(val) == 'defaultdict') or \
-                        (isinstance(val, ast.Name) and val.id in locals_dd) \
-                        or (isinstance(val, ast.Attribute) and
-                            val.attr in dd_fields and isinstance(
-                                val.value, ast.Name))
-                    if not is_dd:
-                        continue
-                    if isinstance(tgt, ast.Name) and tgt.id not in locals_dd:
-                        locals_dd.add(tgt.id)
-                        changed = True
-                    if isinstance(tgt, ast.Attribute) and isinstance(
-                            tgt.value, ast.Name) and tgt.value.id == 'self' \
-                            and tgt.attr not in dd_fields:
-                        dd_fields.add(tgt.attr)
-                        changed = True
-            # call sites feeding parameters
-            for sub in ast.walk(node):
-                if not isinstance(sub, ast.Call):
+            for sub in assigns:
+                tgt, val = sub.targets[0], sub.value
+                is_dd = (isinstance(val, ast.Call) and
+                         call_name(val) == 'defaultdict') or \
+                    (isinstance(val, ast.Name) and val.id in locals_dd) \
+                    or (isinstance(val, ast.Attribute) and
+                        val.attr in dd_fields and isinstance(
+                            val.value, ast.Name))
+                if not is_dd:
                     continue
+                if isinstance(tgt, ast.Name) and tgt.id not in locals_dd:
+                    locals_dd.add(tgt.id)
+                    changed = True
+                if isinstance(tgt, ast.Attribute) and isinstance(
+                        tgt.value, ast.Name) and tgt.value.id == 'self' \
+                        and tgt.attr not in dd_fields:
+                    dd_fields.add(tgt.attr)
+                    changed = True
+            if not locals_dd and not dd_fields:
+                continue
+            # call sites feeding parameters
+            for sub in calls:
                 feeds = []
                 for idx, arg in enumerate(sub.args):
                     if _dd_arg(arg, locals_dd, dd_fields):
@@ -1196,7 +1206,9 @@ def defaultdict_typing(program):
                         feeds.append((None, kwd.arg))
                 if not feeds:
                     continue
-                cands, how = program.resolve_call(func, sub)
+                if id(sub) not in resolved:
+                    resolved[id(sub)] = program.resolve_call(func, sub)
+                cands, how = resolved[id(sub)]
                 if how == 'by-unique-name':
                     continue
                 for cand in cands:
@@ -1204,25 +1216,21 @@ def defaultdict_typing(program):
                     pnames = [x.arg for x in a.posonlyargs + a.args]
                     bound = how in ('ctor', 'self', 'super', 'typed')
                     kwonly = [x.arg for x in a.kwonlyargs]
-                    todo = [cand]
-                    # a constructor call also feeds the base __init__ it
-                    # forwards to by keyword (super().__init__(classify=..))
-                    for target in todo:
-                        for idx, kwname in feeds:
-                            pname = None
-                            if kwname is not None and kwname in \
-                                    pnames + kwonly:
-                                pname = kwname
-                            elif idx is not None:
-                                pos = idx + (1 if bound else 0)
-                                if pos < len(pnames):
-                                    pname = pnames[pos]
-                            if pname is None:
-                                continue
-                            cur = dd_params.setdefault(target.key, set())
-                            if pname not in cur:
-                                cur.add(pname)
-                                changed = True
+                    for idx, kwname in feeds:
+                        pname = None
+                        if kwname is not None and kwname in \
+                                pnames + kwonly:
+                            pname = kwname
+                        elif idx is not None:
+                            pos = idx + (1 if bound else 0)
+                            if pos < len(pnames):
+                                pname = pnames[pos]
+                        if pname is None:
+                            continue
+                        cur = dd_params.setdefault(cand.key, set())
+                        if pname not in cur:
+                            cur.add(pname)
+                            changed = True
     for cinfo in program.all_classes():
         meth = cinfo.methods.get('__getitem__')
         if meth is None:
@@ -1233,14 +1241,21 @@ def defaultdict_typing(program):
                     'self':
                 index_classes.add(cinfo.name)
     index_fields = set()
-    for func in program.all_functions():
-        rets = _returned_classes(program, func)
-        if rets & index_classes:
+    for func, assigns, _calls, rets in facts:
+        names = {sub.targets[0].id: call_name(sub.value) for sub in assigns
+                 if isinstance(sub.targets[0], ast.Name) and isinstance(
+                     sub.value, ast.Call)}
+        out = set()
+        for sub in rets:
+            if isinstance(sub.value, ast.Call):
+                out.add(call_name(sub.value))
+            elif isinstance(sub.value, ast.Name) and sub.value.id in names:
+                out.add(names[sub.value.id])
+        if out & index_classes:
             index_fields.add(('func', func.name))
-    for func in program.all_functions():
-        for sub in ast.walk(func.node):
-            if isinstance(sub, ast.Assign) and len(sub.targets) == 1 and \
-                    isinstance(sub.value, ast.Call):
+    for func, assigns, _calls, _rets in facts:
+        for sub in assigns:
+            if isinstance(sub.value, ast.Call):
                 cname = call_name(sub.value)
                 tgt = sub.targets[0]
                 if cname in index_classes or ('func', cname) in index_fields:
